@@ -229,8 +229,22 @@ def run_idle(case):
         m = case['msg']
         outcome = {}
 
+        # the selector tells when the loop thread blocks without a timeout, i.e. is really idle (a fixed sleep is not
+        # enough on a loaded machine: a message that arrives while the loop still runs callbacks is handled anyway)
+        blocked = threading.Event()
+        selector = drv.loop._selector
+        orig_select = selector.select
+
+        def select(timeout=None):
+            if timeout is None:
+                blocked.set()
+            return orig_select(timeout)
+
+        selector.select = select
+
         def sender():
-            time.sleep(0.05)  # let the main thread really block in the idle loop first
+            outcome['loop_seen_idle'] = blocked.wait(20)
+            time.sleep(0.02)
             t0 = time.time()
             try:
                 reply = None
@@ -257,6 +271,8 @@ def run_idle(case):
         drv.loop.run_forever()
         th.join(15)
         drv.pump()
+    if not outcome.get('loop_seen_idle'):
+        return {'viol': [], 'obs': obs, 'inconclusive': 'loop-never-idle', 'key': case, 'nontrivial': False}
     if not outcome.get('handled_in_time'):
         viol.append(V('idle-delivery-lost', 'idle-delivery-lost:%s:%s' % (m[0], 'loop' if case['wrap'] else 'raw'),
                       'a %s %s message sent from another thread while the loop was idle was not handled within %ss (reply %s)' % (
